@@ -126,6 +126,31 @@ fn fs_state(name: &str) -> (bool, bool) {
     (p.exists(), p.parent().map(|d| d.exists()).unwrap_or(false))
 }
 
+/// `vharness oneshot forked`: the behaviours are executed (client = thread) in a fork(2)ed child of a process
+/// that has used the library before - whatever the library caches per process (its pid for names, lazily
+/// created sockets) is inherited stale by the child.
+pub fn run_forked() {
+    verif::init();
+    {
+        let (server, _name) = IpcOneShotServer::<OMsg>::new().expect("warm-up server");
+        drop(server);
+        let m = IpcSharedMemory::from_bytes(&[1, 2, 3]);
+        let (tx, rx) = ipc_channel::ipc::channel::<IpcSharedMemory>().unwrap();
+        tx.send(m).unwrap();
+        let _ = rx.recv();
+    }
+    let pid = unsafe { libc::fork() };
+    if pid == 0 {
+        die_with_parent();
+        run("thread");
+        unsafe { libc::_exit(0) };
+    }
+    let mut st = 0;
+    unsafe {
+        libc::waitpid(pid, &mut st, 0);
+    }
+}
+
 pub fn run(mode: &str) {
     raise_nofile();
     verif::init();
